@@ -90,7 +90,9 @@ func C06(r *Run) *core.Report {
 					for n, op := range removed {
 						cbNil, known := false, false
 						for _, a := range p.PC {
-							if a.T.Op == "cmp" && a.T.K == "==" && (a.T.Args[0].Op == "aload" || a.T.Args[1].Op == "aload") {
+							// (the nil test of the callback loaded from the settings - not any comparison with an atomically loaded
+							// value, e.g. the retry test of a compare-and-swap loop on some other word)
+							if a.T.Op == "cmp" && a.T.K == "==" && (isCallbackLoad(a.T.Args[0]) || isCallbackLoad(a.T.Args[1])) {
 								cbNil, known = a.V, true
 							}
 						}
@@ -176,4 +178,8 @@ func C06(r *Run) *core.Report {
 		rep.Obs = append(rep.Obs, &c)
 	}
 	return rep
+}
+
+func isCallbackLoad(t *sym.Term) bool {
+	return t != nil && t.Op == "aload" && strings.HasPrefix(t.K, "evictedCallback")
 }
